@@ -116,6 +116,9 @@ def evaluate(prop, repo=None, tier="quick"):
 def run_property(prop, tier="quick", seed=0, replay=None):
     t0 = time.time()
     evidence_path = os.path.join(VERIF, "evidence", "%s.json" % prop)
+    if os.path.realpath(facts.repo_root()) != "/repo":
+        # a run against a scratch copy (tools/try_variant.py, battery) must not overwrite the evidence of the real tree
+        evidence_path = os.path.join(VERIF, "out", "scratch-evidence", "%s.json" % prop)
     try:
         os.remove(evidence_path)
     except OSError:
